@@ -407,7 +407,15 @@ def real_part(rep):
                         text=True, preexec_fn=_new_group)
                     # the command sends SIGINT to its whole process group
                     # (what Ctrl-C in a terminal does)
-                    o, e = p.communicate(timeout=600)
+                    try:
+                        p.wait(timeout=300)
+                    except subprocess.TimeoutExpired:
+                        pass
+                    try:
+                        os.killpg(p.pid, signal.SIGKILL)
+                    except ProcessLookupError:
+                        pass
+                    o, e = p.communicate(timeout=60)
                     rep.count('real_runs')
                     rep.count('evaluations')
                     judge_real(rep, lname, f'sigint-at-test-{k}-{strat}',
